@@ -3,6 +3,7 @@
 
 #include <yaclib/async/connect.hpp>
 #include <yaclib/async/contract.hpp>
+#include <yaclib/async/run.hpp>
 #include <yaclib/async/share.hpp>
 #include <yaclib/async/shared_contract.hpp>
 #include <yaclib/async/shared_future.hpp>
@@ -45,6 +46,8 @@ enum Op : int {
   kWhenAnyCopies,
   kCoAwait,       // a coroutine co_awaits the copy (value by const&, failure rethrown)
   kCoAwaitAwait,  // a coroutine co_awaits Await(copy), then reads the copy, which must be ready
+  kThenInherit,       // SharedFutureOn::Then(f): runs on the executor the shared state carries (degrades to Then(e) otherwise)
+  kSubscribeInherit,  // SharedFutureOn::Subscribe(f)
   kWhenAllOwn,  // WhenAll<None>(std::move(own copy), other ready shared future): consumes the observer's copy, always last
   kWhenAnyOwn,  // WhenAny(std::move(own copy), own copy's duplicate): consumes the observer's copy, always last
   kGetMove,     // consumes the observer's copy: always last
@@ -53,7 +56,7 @@ enum Op : int {
 };
 const char* kOpNames[] = {"ThenInline", "Then(e)", "SubscribeInline", "Subscribe(e)", "Share().Get", "Share(e).ThenInline", "Connect(unique promise)",
                           "Connect(shared promise)", "Wait+Touch", "Get const&", "Ready()+Touch", "copy, use the copy, destroy it", "WhenAll(copy, copy)",
-                          "WhenAny(copy, copy)", "co_await copy", "co_await Await(copy)", "WhenAll(move(own), other)", "WhenAny(move(own), copy)", "Get&&", "drop own copy"};
+                          "WhenAny(copy, copy)", "co_await copy", "co_await Await(copy)", "SharedFutureOn::Then(f)", "SharedFutureOn::Subscribe(f)", "WhenAll(move(own), other)", "WhenAny(move(own), copy)", "Get&&", "drop own copy"};
 enum Producer : int { kSetValue, kSetError, kSetException, kDropPromise, kProducerCount };
 const char* kProducerNames[] = {"Set(value)", "Set(error)", "Set(exception)", "drop promise"};
 
@@ -78,6 +81,8 @@ class Case final : public sim::CaseBase {
     observers = 2 + static_cast<int>(g.Draw(3));
     promise_first = g.Flip();
     split_unique = !promise_first && g.Draw(3) == 2;
+    // 1: RunShared(e, f) 2: AsyncSharedContract(e, f(promise)): the executor's job is the producer, the root is a SharedFutureOn
+    run_kind = (!promise_first && !split_unique && g.Draw(3) == 2) ? 1 + static_cast<int>(g.Draw(2)) : 0;
     by_reference = g.Draw(4) == 3;
     exec_pool = g.Flip();
     pool_workers = 1 + g.Draw(2);
@@ -105,7 +110,7 @@ class Case final : public sim::CaseBase {
   }
 
   void Describe(sim::Json& j) const final {
-    j.KV("producer", kProducerNames[producer]).KV("created_by", promise_first ? "MakeSharedPromise + Split(promise)" : (split_unique ? "MakeContract + Split(Future&&)" : "MakeSharedContract"));
+    j.KV("producer", kProducerNames[producer]).KV("created_by", promise_first ? "MakeSharedPromise + Split(promise)" : (split_unique ? "MakeContract + Split(Future&&)" : (run_kind == 1 ? "RunShared(e, f)" : (run_kind == 2 ? "AsyncSharedContract(e, f)" : "MakeSharedContract"))));
     j.KV("observers_use", by_reference ? "one SharedFuture by const reference" : "their own copies");
     j.KV("executor", exec_pool ? "proxy(pool)" : "proxy(inline)").KV("pool_workers", pool_workers).KV("producer_delay", prod_delay);
     j.Key("observers").Arr();
@@ -263,6 +268,23 @@ class Case final : public sim::CaseBase {
             sim::Fail("COROUTINE_FAILED", "the observer coroutine did not finish with a value");
           }
         } break;
+        case kThenInherit: {
+          if (on_handle != nullptr) {
+            SIM_PROBE("shared_future_on_then");
+            auto f = on_handle->Then(Callback(o, kThenExec));
+            (void)std::move(f).Get();
+          } else {
+            auto f = c.Then(*proxy, Callback(o, kThenExec));
+            (void)std::move(f).Get();
+          }
+        } break;
+        case kSubscribeInherit:
+          if (on_handle != nullptr) {
+            on_handle->Subscribe(Callback(o, kSubscribeExec));
+          } else {
+            c.Subscribe(*proxy, Callback(o, kSubscribeExec));
+          }
+          break;
         case kWhenAllOwn: {
           if (own != nullptr) {
             auto [of, opr] = yaclib::MakeSharedContract<T, E>();
@@ -310,7 +332,44 @@ class Case final : public sim::CaseBase {
       SF root;
       yaclib::SharedPromise<T, E> promise;
       yaclib::Promise<T, E> unique_promise;
-      if (split_unique) {
+      yaclib::SharedFutureOn<T, E> root_on;
+      auto before_set = [this] {
+        for (std::uint32_t y = 0; y < prod_delay; ++y) {
+          sim::Yield();
+        }
+        sim::RaceWrite(&cell, sizeof cell);
+        cell = id;
+        set_invoke = sim::Seq();
+      };
+      if (run_kind == 1) {
+        root_on = yaclib::RunShared<E>(px, [this, before_set]() -> yaclib::Result<T, E> {
+          before_set();
+          switch (producer) {
+            case kSetValue: return T{id};
+            case kSetError: return E{id};
+            case kSetException: throw sim::TaggedEx{id};
+            default: return yaclib::StopTag{};
+          }
+        });
+      } else if (run_kind == 2) {
+        root_on = yaclib::AsyncSharedContract<T, E>(px, [this, before_set](yaclib::SharedPromise<T, E> pp) {
+          before_set();
+          switch (producer) {
+            case kSetValue: std::move(pp).Set(T{id}); break;
+            case kSetError: std::move(pp).Set(E{id}); break;
+            case kSetException: std::move(pp).Set(sim::MakeEx(id)); break;
+            default: {
+              SIM_FAULT("promise_dropped");
+              auto dead = std::move(pp);
+              (void)dead;
+            } break;
+          }
+        });
+      }
+      if (run_kind != 0) {
+        root = yaclib::SharedFutureOn<T, E>{root_on}.On(nullptr);
+        on_handle = &root_on;
+      } else if (split_unique) {
         // the shared state is fed by a unique future through Connect: the producer fulfils the unique promise
         auto [f, p] = yaclib::MakeContract<T, E>();
         root = yaclib::Split(std::move(f));
@@ -347,7 +406,9 @@ class Case final : public sim::CaseBase {
         }
         set_return = sim::Seq();
       };
-      yaclib_std::thread prod = split_unique ? yaclib_std::thread{[fulfil, pp = std::move(unique_promise)]() mutable {
+      yaclib_std::thread prod = run_kind != 0 ? yaclib_std::thread{[] {
+      }}
+                                : split_unique ? yaclib_std::thread{[fulfil, pp = std::move(unique_promise)]() mutable {
         fulfil(std::move(pp));
       }}
                                              : yaclib_std::thread{[fulfil, pp = std::move(promise)]() mutable {
@@ -367,6 +428,7 @@ class Case final : public sim::CaseBase {
         t.join();
       }
       sim::SleepNs(50'000'000);  // subscriptions on the executor finish
+      on_handle = nullptr;
     }
     px.NoteStopInvoked();
     pool.SoftStop();
@@ -412,6 +474,8 @@ class Case final : public sim::CaseBase {
 
   int producer = 0, observers = 2;
   bool split_unique = false;
+  int run_kind = 0;
+  const yaclib::SharedFutureOn<T, E>* on_handle = nullptr;
   bool promise_first = false, by_reference = false, exec_pool = false, root_drops_early = false;
   std::uint32_t pool_workers = 1, prod_delay = 0, id = 1;
   std::vector<std::vector<int>> programs;
